@@ -915,6 +915,23 @@ class GroupBy:
         # one result per group-key chunk per value in value_list
         results, counts = zip(*parallel_map(func, arg_list))
 
+        if _verif.ACTIVE and self.key_is_chunked:
+            _verif.emit(
+                "ChunkPartials",
+                func=func_name,
+                first=int(first_chunk_in),
+                piece_lengths=list(group_key_lengths),
+                key_lengths=list(self._group_key_lengths),
+                pointers=(
+                    None
+                    if self._group_key_pointers is None
+                    else [np.array(p) for p in self._group_key_pointers]
+                ),
+                n_values=n_values,
+                results=[np.array(r) for r in results],
+                counts=[np.array(c) for c in counts],
+            )
+
         if not self.key_is_chunked:
             # single group key chunk, so we can return the results directly
             return list(zip(results, counts))
